@@ -37,6 +37,10 @@ func (vc *VC) byteContent(st *State) (*KeyInfo, *Term) {
 
 // ---- base64 URL alphabet ----
 
+func (vc *VC) byteContentIn(st *State) (*KeyInfo, *Term) {
+	return vc.byteContent(st)
+}
+
 func b64val(c *Term) (ok *Term, v *Term) {
 	c9 := BVResize(c, 8)
 	in := func(lo, hi byte) *Term { return And(BVCmp("bvuge", c9, BVC(uint64(lo), 8)), BVCmp("bvule", c9, BVC(uint64(hi), 8))) }
